@@ -33,96 +33,236 @@ def check(ctx, R):
     R.undecided("that third-party transports honour 'at most n bytes' (contract)")
 
 
+from ..util import lin_ast as _lin, lin_add as _lin_add   # noqa: E402
+
+
 def _read_exact(ctx, R, roles, T):
+    """The read-exactly primitive, as an inductive linear invariant: with `req` the size asked of the transport and `acc` the
+    accumulator,  req + len(acc) == <requested length>  holds when the loop is entered and is preserved by every iteration
+    (the chunk is appended exactly once; every counter moves by len(chunk) exactly once); the loop is left normally only when
+    req <= 0; the accumulator is what is returned.  Counting down, counting up and recomputing from len(acc) all qualify."""
     f = roles.read_exact
     g = ctx.cfg(f)
     df = ctx.df(f)
+    q = f.qualname
     sites = [(n, c) for n in g.live_nodes() for c in node_calls(n) if call_attr(c) == "bulk_read"]
     R.count("INV-read[%s]" % roles.tag, len(sites), 1)
     if len(sites) != 1:
-        R.fail("INV-read", f.qualname + "|sites", "read-exactly primitive must contain exactly one bulk_read call, found %d" % len(sites), f.loc())
+        R.fail("INV-read", q + "|sites", "read-exactly primitive must contain exactly one bulk_read call, found %d" % len(sites), f.loc())
         return
     n, c = sites[0]
     loc = f.loc(n.ast)
     if not n.loops:
-        R.fail("INV-read", f.qualname + "|loop", "bulk_read is not retried in a loop: a short read truncates the packet", loc)
+        R.fail("INV-read", q + "|loop", "bulk_read is not retried in a loop: a short read truncates the packet", loc)
         return
     head = n.loops[-1]
     inside = set(loop_nodes(g, head))
-    # T = bulk_read(R, ...)
     st = n.ast
     if not (n.kind == "stmt" and isinstance(st, ast.Assign) and len(st.targets) == 1 and isinstance(st.targets[0], ast.Name) and unawait(st.value) is c):
-        R.fail("INV-read", f.qualname + "|chunk", "the chunk returned by bulk_read is not bound to a variable (`%s`)" % norm_stmt(st), loc)
+        R.fail("INV-read", q + "|chunk", "the chunk returned by bulk_read is not bound to a variable (`%s`)" % norm_stmt(st), loc)
         return
     Tv = st.targets[0].id
-    a0 = unawait(c.args[0]) if c.args else None
-    if not isinstance(a0, ast.Name):
-        R.fail("INV-read", f.qualname + "|request", "bulk_read is asked for `%s`, not for the number of bytes that remain" % (src(a0) if a0 is not None else "?"), loc)
+    # -- the accumulator: what is returned ----------------------------------------------------------------------------
+    acc = None
+    list_mode = False
+    rets = [rn for rn in g.live_nodes() if rn.kind == "stmt" and isinstance(rn.ast, ast.Return)]
+    for rn in rets:
+        v = unawait(rn.ast.value) if rn.ast.value is not None else None
+        if isinstance(v, ast.Call) and isinstance(v.func, ast.Name) and v.func.id in ("bytes", "bytearray") and len(v.args) == 1:
+            v = unawait(v.args[0])
+        if isinstance(v, ast.Call) and isinstance(v.func, ast.Attribute) and v.func.attr == "join" and len(v.args) == 1 and isinstance(v.func.value, ast.Constant) and v.func.value.value == b"":
+            v = unawait(v.args[0])
+            list_mode = True
+        k = varkey(v) if v is not None else None
+        ok = k is not None and (acc is None or acc == k) and rn not in inside
+        if ok:
+            acc = k
+        R.check(ok, "INV-read", "%s|%s" % (q, norm_stmt(rn.ast)), "returns the accumulated bytes after the loop",
+                "returns `%s`, not the accumulated bytes of a completed loop" % norm_stmt(rn.ast), f.loc(rn.ast))
+    if acc is None:
+        R.fail("INV-read", q + "|acc", "no accumulator is returned", loc)
         return
-    Rv = a0.id
-    # remaining counter: initialised from a parameter (or a copy of it), modified only by `R -= len(T)`
-    outer = [d for d in df.reaching(head, Rv) if d.node not in inside]
-    init_ok = bool(outer) and all(d.kind == "param" or (d.kind == "assign" and isinstance(unawait(d.value), ast.Name) and unawait(d.value).id in f.params and not d.path) for d in outer)
-    R.check(init_ok, "INV-read", f.qualname + "|remaining-init", "`%s` starts as the requested length" % Rv,
-            "the remaining-bytes counter `%s` does not start as the requested length" % Rv, loc)
-    subs, adds, acc = [], [], None
+    # -- appends of the chunk -------------------------------------------------------------------------------------------
+    adds = []
     for m in inside:
         a = m.ast
-        if m.kind == "stmt" and isinstance(a, ast.AugAssign):
-            v = unawait(a.value)
-            if isinstance(a.op, ast.Sub) and varkey(a.target) == Rv and isinstance(v, ast.Call) and isinstance(v.func, ast.Name) and v.func.id == "len" \
-                    and len(v.args) == 1 and isinstance(v.args[0], ast.Name) and v.args[0].id == Tv:
-                subs.append(m)
-            elif isinstance(a.op, ast.Add) and isinstance(v, ast.Name) and v.id == Tv and varkey(a.target):
+        if m.kind != "stmt":
+            continue
+        if isinstance(a, ast.AugAssign) and isinstance(a.op, ast.Add) and varkey(a.target) == acc and isinstance(unawait(a.value), ast.Name) and unawait(a.value).id == Tv and not list_mode:
+            adds.append(m)
+        elif isinstance(a, ast.Expr) and isinstance(unawait(a.value), ast.Call):
+            cc = unawait(a.value)
+            if isinstance(cc.func, ast.Attribute) and varkey(cc.func.value) == acc and len(cc.args) == 1 and isinstance(unawait(cc.args[0]), ast.Name) and unawait(cc.args[0]).id == Tv \
+                    and cc.func.attr == ("append" if list_mode else "extend"):
                 adds.append(m)
-                acc = varkey(a.target)
-    R.check(len(subs) == 1, "INV-read", f.qualname + "|subtract", "`%s -= len(%s)` occurs once per iteration" % (Rv, Tv),
-            "`%s -= len(%s)` does not occur exactly once in the loop (%d found): the remaining count no longer tracks what was read" % (Rv, Tv, len(subs)), loc)
-    R.check(len(adds) == 1, "INV-read", f.qualname + "|append", "the chunk is appended once per iteration",
+        elif isinstance(a, ast.Assign) and len(a.targets) == 1 and varkey(a.targets[0]) == acc and not list_mode:
+            v = unawait(a.value)
+            if isinstance(v, ast.BinOp) and isinstance(v.op, ast.Add) and varkey(unawait(v.left)) == acc and isinstance(unawait(v.right), ast.Name) and unawait(v.right).id == Tv:
+                adds.append(m)
+    R.check(len(adds) == 1, "INV-read", q + "|append", "the chunk is appended once per iteration",
             "the chunk `%s` is not appended to the accumulator exactly once per iteration (%d appends)" % (Tv, len(adds)), loc)
-    if len(subs) != 1 or len(adds) != 1:
+    if len(adds) != 1:
         return
-    exits = [d for (_m, d, _l) in loop_exit_edges(g, head)]
-    for what, m in (("subtract", subs[0]), ("append", adds[0])):
-        r = g.reach([n], avoid=[m], exc=False)
-        bad = head in r or any(x in r for x in exits)
-        R.check(not bad, "INV-read", f.qualname + "|%s-every-path" % what, "%s happens on every path after a read" % what,
-                "after a read there is a path on which `%s` is skipped" % norm_stmt(m.ast), f.loc(m.ast))
-        # the chunk used there is the one just read
-        ds = df.reaching(m, Tv)
-        R.check(len(ds) == 1 and next(iter(ds)).node is n, "INV-read", f.qualname + "|%s-same-chunk" % what, "operates on the chunk just read", None, f.loc(m.ast))
+    # -- counters: names updated in the loop by +-len(chunk) --------------------------------------------------------------
+    deltas = {}          # name -> (+1 / -1 in units of len(chunk), node)
+    bad_writes = []
     for m in inside:
         for d in df.node_defs.get(m, []):
-            if d.kind == "base":
+            if d.kind == "base" or "." in d.var:
                 continue
-            if d.var == Rv and m not in subs:
-                R.fail("INV-read", f.qualname + "|remaining-written", "the remaining counter is also modified at `%s`" % norm_stmt(m.ast), f.loc(m.ast))
-            if d.var == acc and m not in adds:
-                R.fail("INV-read", f.qualname + "|acc-written", "the accumulator is also modified at `%s`" % norm_stmt(m.ast), f.loc(m.ast))
-            if d.var == Tv and m is not n:
-                R.fail("INV-read", f.qualname + "|chunk-written", "the chunk is modified at `%s`" % norm_stmt(m.ast), f.loc(m.ast))
-    # accumulator starts empty
+            if d.var == Tv:
+                if m is not n:
+                    R.fail("INV-read", q + "|chunk-written", "the chunk is modified at `%s`" % norm_stmt(m.ast), f.loc(m.ast))
+                continue
+            if d.var == acc:
+                if m not in adds:
+                    R.fail("INV-read", q + "|acc-written", "the accumulator is also modified at `%s`" % norm_stmt(m.ast), f.loc(m.ast))
+                continue
+            a = m.ast
+            sg = None
+            if m.kind == "stmt" and isinstance(a, ast.AugAssign) and isinstance(a.op, (ast.Add, ast.Sub)) and isinstance(a.target, ast.Name):
+                v = unawait(a.value)
+                if isinstance(v, ast.Call) and isinstance(v.func, ast.Name) and v.func.id == "len" and len(v.args) == 1 and isinstance(unawait(v.args[0]), ast.Name) and unawait(v.args[0]).id == Tv:
+                    sg = 1 if isinstance(a.op, ast.Add) else -1
+            if sg is None or d.var in deltas:
+                bad_writes.append((d.var, m))
+            else:
+                deltas[d.var] = (sg, m)
+    req = _lin(c.args[0], acc) if c.args else None
+    if req is None:
+        R.fail("INV-read", q + "|request", "bulk_read is asked for `%s`, which is not a linear expression of the counters and len(accumulator)" % (src(c.args[0]) if c.args else "?"), loc)
+        return
+    # a name recomputed in every iteration from the counters / len(accumulator) just before the read (`missing = length - len(data)`)
+    derived = set()
+    for _round in range(3):
+        changed = False
+        for v in list(req[0]):
+            if v == "LEN" or v in deltas:
+                continue
+            d = df.unique_def(n, v)
+            if d is None or d.node not in inside or d.kind != "assign" or d.path or d.value is None:
+                continue
+            lf = _lin(d.value, acc)
+            if lf is None:
+                continue
+            between = g.reach([d.node], avoid=[n], exc=False)
+            moved = adds[0] in between or any(deltas[x][1] in between for x in lf[0] if x in deltas) or \
+                any(dd.var in lf[0] and dd.kind != "base" for m in between if m is not d.node for dd in df.node_defs.get(m, []))
+            if moved:
+                continue
+            k = req[0][v]
+            rest = ({a_: b_ for a_, b_ in req[0].items() if a_ != v}, req[1])
+            req = _lin_add(rest, ({a_: b_ * k for a_, b_ in lf[0].items()}, lf[1] * k))
+            derived.add(v)
+            changed = True
+        if not changed:
+            break
+    bad_writes = [(v, m) for v, m in bad_writes if v not in derived]
+    used = set(req[0]) - {"LEN"}
+    for v, m in bad_writes:
+        if v in used:
+            R.fail("INV-read", q + "|remaining-written", "`%s`, which determines the size requested, is also modified at `%s`" % (v, norm_stmt(m.ast)), f.loc(m.ast))
+    # every update (append, counters the request depends on) happens on every path after a read, on the chunk just read
+    exits = [d for (_m, d, _l) in loop_exit_edges(g, head)]
+    for what, m in [("append", adds[0])] + [("subtract" if deltas[v][0] < 0 else "count", deltas[v][1]) for v in sorted(used) if v in deltas]:
+        r = g.reach([n], avoid=[m], exc=False)
+        bad = head in r or any(x in r for x in exits)
+        R.check(not bad, "INV-read", q + "|%s-every-path" % what, "%s happens on every path after a read" % what,
+                "after a read there is a path on which `%s` is skipped" % norm_stmt(m.ast), f.loc(m.ast))
+        ds = df.reaching(m, Tv)
+        R.check(len(ds) == 1 and next(iter(ds)).node is n, "INV-read", q + "|%s-same-chunk" % what, "operates on the chunk just read", None, f.loc(m.ast))
+        R.check(m not in g.reach([m], avoid=[n], exc=False), "INV-read", q + "|%s-once" % what, "%s happens once per chunk" % what, "`%s` can run twice for one chunk" % norm_stmt(m.ast), f.loc(m.ast))
+    # -- preservation: d(req + len(acc)) == 0 per iteration --------------------------------------------------------------
+    inv = _lin_add(req, ({"LEN": 1}, 0))
+    delta = inv[0].get("LEN", 0) * 1
+    unknown_moving = []
+    for v, k in inv[0].items():
+        if v == "LEN":
+            continue
+        if v in deltas:
+            delta += k * deltas[v][0]
+        elif any(d.var == v and d.kind != "base" for m in inside for d in df.node_defs.get(m, [])):
+            unknown_moving.append(v)
+    R.check(delta == 0 and not unknown_moving, "INV-read", q + "|subtract", "each iteration keeps  requested-size + len(accumulator)  constant (the request shrinks by exactly what was read)",
+            "the size requested does not shrink by exactly len(chunk) per iteration (net change %+d x len(chunk)%s): the remaining count no longer tracks what was read" % (
+                delta, "; `%s` changes in an unrecognised way" % ", ".join(unknown_moving) if unknown_moving else ""), loc)
+    # -- initialisation: req + len(acc) == the length parameter at loop entry ---------------------------------------------
+    want_param = f.params[1] if len(f.params) > 1 else None
+
+    def initial(v, depth=0):
+        """linear form of variable v on entry to the loop, over parameter entry values"""
+        outer = [d for d in df.reaching(head, v) if d.node not in inside]
+        if len(outer) != 1 or depth > 3:
+            return None
+        d = outer[0]
+        if d.kind == "param":
+            return {("p", v): 1}, 0
+        if d.kind == "assign" and not d.path and d.value is not None:
+            lf = _lin(d.value, None)
+            if lf is None:
+                return None
+            out = ({}, lf[1])
+            for a_, k_ in lf[0].items():
+                if a_.startswith("len("):
+                    return None
+                dd = df.reaching(d.node, a_)
+                if len(dd) == 1 and next(iter(dd)).kind == "param":
+                    sub = ({("p", a_): 1}, 0)
+                else:
+                    return None
+                out = _lin_add(out, ({x: y * k_ for x, y in sub[0].items()}, sub[1] * k_))
+            return out
+        return None
+    init_form = ({}, inv[1])
+    init_ok = True
+    for v, k in inv[0].items():
+        if v == "LEN":
+            continue          # accumulator starts empty (checked below)
+        iv = initial(v)
+        if iv is None:
+            init_ok = False
+            break
+        init_form = _lin_add(init_form, ({x: y * k for x, y in iv[0].items()}, iv[1] * k))
+    init_ok = init_ok and want_param is not None and init_form == ({("p", want_param): 1}, 0)
+    R.check(init_ok, "INV-read", q + "|remaining-init", "on entry the size requested is the length asked for",
+            "on entry to the loop the size requested is not the `%s` parameter" % (want_param or "length"), loc)
     aouter = [d for d in df.reaching(head, acc) if d.node not in inside]
-    empty_ok = bool(aouter) and all(d.kind == "assign" and _is_empty_bytes(unawait(d.value)) for d in aouter)
-    R.check(empty_ok, "INV-read", f.qualname + "|acc-init", "accumulator starts empty", "the accumulator does not start empty", loc)
-    # normal exits only when nothing remains
-    rk = key(ast.Name(id=Rv, ctx=ast.Load()))
-    zk = key(ast.Constant(value=0))
+    if list_mode:
+        empty_ok = bool(aouter) and all(d.kind == "assign" and isinstance(unawait(d.value), ast.List) and not unawait(d.value).elts for d in aouter)
+    else:
+        empty_ok = bool(aouter) and all(d.kind == "assign" and _is_empty_bytes(unawait(d.value)) for d in aouter)
+    R.check(empty_ok, "INV-read", q + "|acc-init", "accumulator starts empty", "the accumulator does not start empty", loc)
+    # -- normal exits only when req <= 0 ----------------------------------------------------------------------------------
+    from .c06 import eval_dump
+
+    def says_done(fa):
+        kind, pol = fa[0][0], fa[1]
+        try:
+            xs = [eval_dump(x) for x in fa[0][1:]]
+        except Exception:   # noqa
+            return False
+        if kind == "lt" and len(xs) == 2:
+            la, lb = _lin(xs[0], acc), _lin(xs[1], acc)
+            if la is None or lb is None:
+                return False
+            if pol is False and _lin_add(lb, la, -1) == req:
+                return True           # not (a < b) with b - a == req: req <= 0
+            if pol is True and _lin_add(la, lb, -1) == ({k: v for k, v in req[0].items()}, req[1] + 1) and False:
+                return True
+        if kind == "eq" and len(xs) == 2 and pol is True:
+            la, lb = _lin(xs[0], acc), _lin(xs[1], acc)
+            if la is not None and lb is not None and (_lin_add(la, lb, -1) == req or _lin_add(lb, la, -1) == req):
+                return True
+        if kind == "truthy" and len(xs) == 1 and pol is False:
+            la = _lin(xs[0], acc)
+            if la is not None and la == req:
+                return True
+        return False
     for (m, d, l) in loop_exit_edges(g, head):
         have = set(df.facts(m)) | df.edge_facts(m, l)
-        ok = any((fa[0] == ("lt", zk, rk) and fa[1] is False) or (fa[0] == ("eq",) + tuple(sorted([rk, zk])) and fa[1] is True)
-                 or (fa[0] == ("truthy", rk) and fa[1] is False) for fa in have)
-        R.check(ok, "INV-read", "%s|exit:%s" % (f.qualname, norm_stmt(m.ast) if m.ast is not None else m.kind),
-                "loop exit only when no bytes remain", "the read loop can be left while bytes remain (exit at `%s` is not governed by `%s == 0`)" % (norm_stmt(m.ast) if m.ast is not None else m.kind, Rv), f.loc(m.ast))
-    # returns: the accumulator, after the loop
-    for rn in g.live_nodes():
-        if rn.kind == "stmt" and isinstance(rn.ast, ast.Return):
-            v = unawait(rn.ast.value) if rn.ast.value is not None else None
-            if isinstance(v, ast.Call) and isinstance(v.func, ast.Name) and v.func.id in ("bytes", "bytearray") and len(v.args) == 1:
-                v = v.args[0]
-            ok = v is not None and varkey(v) == acc and rn not in inside
-            R.check(ok, "INV-read", "%s|%s" % (f.qualname, norm_stmt(rn.ast)), "returns the accumulated bytes after the loop",
-                    "returns `%s`, not the accumulated bytes of a completed loop" % norm_stmt(rn.ast), f.loc(rn.ast))
+        ok = any(says_done(fa) for fa in have)
+        R.check(ok, "INV-read", "%s|exit:%s" % (q, norm_stmt(m.ast) if m.ast is not None else m.kind),
+                "loop exit only when no bytes remain", "the read loop can be left while bytes remain (exit at `%s` is not governed by the outstanding size being 0)" % (norm_stmt(m.ast) if m.ast is not None else m.kind), f.loc(m.ast))
 
 
 def _is_empty_bytes(e):
@@ -202,6 +342,18 @@ def _packet_reader(ctx, R, roles, T):
         facts = df.facts(rn)
         known = cmdvar is not None and any(fa[0] == ("truthy", key(cmdvar)) and fa[1] is True for fa in facts) or \
             (cmdvar is not None and any(fa[0] == ("is", ) + tuple(sorted([key(cmdvar), key(ast.Constant(value=None))])) and fa[1] is False for fa in facts))
+        if not known and cmd[0] == "sub":
+            # command = WIRE_TO_ID[word] behind `word in WIRE_TO_ID`
+            from .c06 import eval_dump
+            for fa in facts:
+                if fa[0][0] == "in" and fa[1] is True:
+                    try:
+                        we, te = eval_dump(fa[0][1]), eval_dump(fa[0][2])
+                    except Exception:   # noqa
+                        continue
+                    okt, tv = ctx.fold.try_eval(te, f.mod, {})
+                    if okt and tv == wti and is_unpack_proj(T.term(f, rn, we), 0):
+                        known = True
         R.check(known, "PKT", sub + "|known-cmd", "an unknown command word cannot reach this return",
                 "a packet with an unknown command word can be delivered (no dominating `if not command: raise`)", f.loc(rn.ast))
         if payload == pterm:
